@@ -574,7 +574,7 @@ Section Spec.
     let at_cursor (f : path -> sres) : sres :=
       match cursor with
       | None => SFail
-      | Some None => SOmit
+      | Some None => norm VNil        (* no node: a null result (D4 decides whether it shows) *)
       | Some (Some n) => f n
       end in
     match c, e, fn, pa, ob, ar with
@@ -724,7 +724,7 @@ Definition std_call (root : tree) (name : bytes) (p : path) (args : list value) 
   else if beq name "verif_pick" then
     match args with
     | VInt i :: rest =>
-        if Z.ltb i 0 then CfErr
+        if (Z.ltb i 0 || Z.leb (Z.of_nat (length rest)) i)%bool then CfErr
         else match nth_error (strs_of rest) (Z.to_nat i) with Some s => CfOk (VStr s) | None => CfErr end
     | _ => CfErr
     end
@@ -741,7 +741,7 @@ Definition no_pcall (_ : bytes) (_ : path) : cfres := CfErr.
 Record c02rec := mkRec { r_root : tree; r_cursor : path; r_out : oout }.
 Record c02case := mkCase {
   cs_decls : list (bytes * decl);
-  cs_dump : vdecl;
+  cs_dump : option vdecl;     (* None = the implementation rejected the schema *)
   cs_classes : list N;
   cs_ext : list (bytes * bytes);
   cs_recs : list c02rec }.
@@ -759,13 +759,17 @@ Definition check_rec (ds : list (bytes * decl)) (v : vdecl) (ext : bytes -> opti
      end.
 
 Definition check_case (c : c02case) : bool :=
-  let v := rehash (cs_dump c) in
-  let subs := subdecls v in
-  wf_b true v
-  && Nat.eqb (length subs) (length (cs_classes c))
-  && classes_ok (combine (map (fun d => v_hash (vd_info d)) subs) (cs_classes c))
-  && match validate (cs_decls c) std_fexists (fun _ => false) with
-     | VOk mv => vdecl_eqb mv v
-     | _ => false
-     end
-  && forallb (check_rec (cs_decls c) v (fun k => lookup k (cs_ext c))) (cs_recs c).
+  match cs_dump c with
+  | None => match validate (cs_decls c) std_fexists (fun _ => false) with VErr => true | _ => false end
+  | Some dump =>
+      let v := rehash dump in
+      let subs := subdecls v in
+      wf_b true v
+      && Nat.eqb (length subs) (length (cs_classes c))
+      && classes_ok (combine (map (fun d => v_hash (vd_info d)) subs) (cs_classes c))
+      && match validate (cs_decls c) std_fexists (fun _ => false) with
+         | VOk mv => vdecl_eqb mv v
+         | _ => false
+         end
+      && forallb (check_rec (cs_decls c) v (fun k => lookup k (cs_ext c))) (cs_recs c)
+  end.
